@@ -52,6 +52,14 @@ pub(crate) fn vrt_assume(c: bool) {
 pub(crate) fn vrt_check(c: bool, msg: &'static str) {
     if !c {
         println!("VRT-CHECK-FAILED {}", msg);
+        // a harness shared by several properties (VRT_PREFIX = the property under check): an assertion of a sibling
+        // property is recorded like a soft check and the run goes on, so that later assertions are still evaluated
+        if let Ok(pfx) = std::env::var("VRT_PREFIX") {
+            if !pfx.is_empty() && !msg.starts_with(pfx.as_str()) {
+                SOFT_FAILS.with(|f| f.set(f.get() + 1));
+                return;
+            }
+        }
         panic!("VRT-CHECK-FAILED {}", msg);
     }
 }
